@@ -90,7 +90,14 @@ def run(ctx, rep):
     rep.check(okerr and n_err >= 1, "S5", "C03|S5|add_content", cfg.where(facts.fn(P + "add_content")),
               "add_content: a parse failure stores no tree and appends the converted Error; a successful parse stores exactly what the parser returned")
     # None of Option<ast::Aidl> from a successful parse: only the OptAidl action, only when OptItem is None; None of Option<Item>: only the recovery alternative (wiring rules)
-    # ---- S6 append-only
+    append_only_rule(ctx, rep, "C03")
+    rep.assumptions += ["TB-2 lalrpop: generated tables == grammar; recovery reports the errors it swallowed", "TB-1 rustc MIR", "TB-4 tabulator", "A11 is bounded: equality of the two languages up to N tokens"]
+    rep.not_decided.append("language equality beyond the token bound of A11")
+
+
+def append_only_rule(ctx, rep, prop):
+    """S6: validation only appends to (and finally sorts) the diagnostics; results keep the stored vector"""
+    facts = ctx.mir
     reach, _ = dataflow.reachable_fns(facts, ["validation::validate"])
     allowed = ("push", "sort_by_key", "sort_by", "clone", "iter", "len", "is_empty", "new", "deref", "deref_mut", "as_slice", "as_mut_slice", "from", "drop_in_place")
     n = 0
@@ -111,7 +118,7 @@ def run(ctx, rep):
                 continue
             name = (ci.get("resolved") or ci["def"]).rsplit("::", 1)[1]
             n += 1
-            rep.check(name in allowed, "S6", "C03|S6|%s|%s" % (pth, name), cfg.where(f, t),
+            rep.check(name in allowed, "S6", "%s|S6|%s|%s" % (prop, pth, name), cfg.where(f, t),
                       "`%s` is applied to a vector of diagnostics in %s: validation may only append (and finally sort) - it must never drop a stored syntax Error" % (name, pth),
                       sample={"fn": pth, "call": name})
     rep.floor("S6", "calls on Vec<Diagnostic> reachable from validation", n, 20)
@@ -139,7 +146,5 @@ def run(ctx, rep):
             sorts = [e for e in p.effects if e[0] == "call" and "sort" in e[1]]
             other = [e for e in p.effects if e[0] == "call" and e[1] not in ops and "sort" not in e[1] and "fr.diagnostics" in fmt_label(e[2])]
             okd = okd and not other
-    rep.check(okd, "S6", "C03|S6|struct-update", cfg.where(facts.fn(clo)) if clo else None,
+    rep.check(okd, "S6", "%s|S6|struct-update" % prop, cfg.where(facts.fn(clo)) if clo else None,
               "every result built by the per-file closure (with and without a tree) carries the id of its entry and the stored diagnostics vector (only appended to / sorted)")
-    rep.assumptions += ["TB-2 lalrpop: generated tables == grammar; recovery reports the errors it swallowed", "TB-1 rustc MIR", "TB-4 tabulator", "A11 is bounded: equality of the two languages up to N tokens"]
-    rep.not_decided.append("language equality beyond the token bound of A11")
